@@ -45,3 +45,46 @@ Proof.
   split; [reflexivity|]. unfold passthrough_codes.
   repeat (constructor; [cbn; intros H; repeat (destruct H as [H|H]; [discriminate H|]); exact H|]). constructor.
 Qed.
+
+(* ---- through the C API (Model/CapiKeys.v, Proofs/CapiPassthrough.v): in a context reached by ANY sequence of C
+   calls (key functions with any int, configuration, candidate and user-phrase calls, resets) that is in the editing
+   state with an empty pre-edit buffer, each of the thirteen named key functions - chewing_handle_Enter / Esc / Tab /
+   Backspace / Del / Left / Right / Up / Down / Home / End / PageUp / PageDown, under every keyboard layout the
+   context may have selected and with any modifier bits - returns with chewing_keystroke_CheckIgnore = 1, with
+   neither CheckAbsorb nor chewing_commit_Check set, and leaves buffer, cursor, phonetic keys, dictionary, options,
+   engine, alternative index, editor state, keyboard, reported keyboard number and selection keys as they were. *)
+From Coq Require Import ZArith.
+From LC Require Import Gen.Keyboard_gen Model.EdInst Model.CapiKeys Model.CapiConfig Model.CapiRun Proofs.EdInstProofs
+     Proofs.CapiKeysProofs Proofs.CapiInv Proofs.CapiPassthrough Proofs.EngineTiles.
+
+Theorem C06_named_keys_pass_through_after_any_C_calls : forall conv,
+  (forall d k c n, md_fine d -> wf_comp c -> contiguous 0 (clen c) (conv d k c n) = true) ->
+  forall ss0, ss_good ss0 -> ss_cursor ss0 = None ->
+  forall d ab t0 ops c, md_fine d -> Forall cop_fine ops -> crun conv (cx_init d ab ss0 t0) ops = Ok c ->
+  st (cx_ed c) = Entering -> chewing_buffer_Len c = 0%Z ->
+  forall code mods, In code passthrough_codes -> (mods < 16)%N ->
+  exists c', cstep conv c (CHandle code mods) = Ok c' /\
+    chewing_keystroke_CheckIgnore c' = 1%Z /\ chewing_keystroke_CheckAbsorb c' = 0%Z /\ chewing_commit_Check c' = 0%Z /\
+    persist_eq (sh (cx_ed c')) (sh (cx_ed c)) /\ st (cx_ed c') = st (cx_ed c) /\
+    cx_kb c' = cx_kb c /\ cx_kbcompat c' = cx_kbcompat c /\ cx_sel c' = cx_sel c /\
+    chewing_buffer_Len c' = 0%Z /\ chewing_cursor_Current c' = chewing_cursor_Current c.
+Proof.
+  intros conv Ht ss0 Hg Hf d ab t0 ops c Hd Hops Hrun Hst Hlen code mods Hin Hm.
+  eapply c_passthrough_when_idle; try eassumption.
+  eapply (crun_inv conv Ht ss0 Hg Hf); [exact Hops | | exact Hrun]. now apply cx_init_inv.
+Qed.
+Print Assumptions C06_named_keys_pass_through_after_any_C_calls.
+
+(* non-vacuity: Dvorak-on-Qwerty by number, a word typed and committed, then chewing_handle_Esc *)
+Definition c06_dict : memdict := mkMD (bt_insert ([10240], [27425], 10, 0) [])%N [] [].
+Definition c06_history : list cop := [CSetKBType 1; CDefault 97; CHandle kcSpace 0; CHandle kcEnter 0; CSetKBType 8]%Z.
+Example C06_c_history_example :
+  md_fine c06_dict /\ Forall cop_fine c06_history /\
+  exists c c', crun mf_conv (cx_init c06_dict [] ss_empty 0%N) c06_history = Ok c /\
+               st (cx_ed c) = Entering /\ chewing_buffer_Len c = 0%Z /\ In kc_Esc passthrough_codes /\
+               cstep mf_conv c (CHandle kc_Esc 1) = Ok c' /\ chewing_keystroke_CheckIgnore c' = 1%Z.
+Proof.
+  split; [split; vm_compute; repeat constructor; intro; discriminate|]. split.
+  - repeat (apply Forall_cons; [first [exact I | split; vm_compute; reflexivity]|]). apply Forall_nil.
+  - eexists. eexists. split; [vm_compute; reflexivity|]. vm_compute. repeat split. right. left. reflexivity.
+Qed.
